@@ -385,7 +385,7 @@ pub fn parent_main(check: &dyn TCheck, args: &Args) -> ! {
             json!({"property": id, "seed": args.seed, "tier": args.tier.name(), "work": r["work"],
                    "work_desc": works.get(&r["work"].as_u64().unwrap_or(0)).map(|w| w["desc"].clone()),
                    "strategy": r["strategy"], "sched_seed": v["sched_seed"], "trace": v["trace"],
-                   "asan": asan_pass(),
+                   "asan": asan_pass(), "engine_cmd": args.cmd,
                    "class": v["class"], "minimised": v["minimised"], "original_trace_len": v["original_trace_len"],
                    "detail": v["detail"], "outcome": v["outcome"]}),
         );
@@ -413,6 +413,20 @@ pub fn parent_main(check: &dyn TCheck, args: &Args) -> ! {
     }
     if ev.distinct.len() < 2 {
         simcore::harness_error("fewer than 2 distinct non-trivial schedules");
+    }
+    if let Ok(path) = std::env::var("VERIF_PASS_SUMMARY") {
+        // an auxiliary pass of another check's command (e.g. the T-flavour pass of C06): it
+        // reports through a summary file and its exit status, the main pass writes the evidence
+        let _ = std::fs::write(
+            &path,
+            json!({"executions": ev.evaluations, "works": works.len(), "scheduler_steps": steps,
+                   "faults_fired": ev.faults_fired, "probes": ev.probes, "outcome_classes": classes,
+                   "violations": violations.len(), "seed": args.seed, "tier": args.tier.name(), "rule": check.rule(),
+                   "decides": "non-termination as a fact about a schedule: every task blocked (deadlock) or the 2M step bound (spinning)"})
+            .to_string(),
+        );
+        println!("{id} T-flavour pass: {} executions, {} violations", ev.evaluations, violations.len());
+        std::process::exit(if violations.is_empty() { 0 } else { 1 })
     }
     if let Ok(path) = std::env::var("VERIF_ASAN_SUMMARY") {
         if asan_pass() {
